@@ -279,7 +279,7 @@ theorem bound_run (hfix : capFix = true) (es : List Ev) (s s' : St) (hb : Bound 
     | none => simp [hst] at hr
     | some s1 => simp [hst] at hr; exact ih s1 (bound_step hfix s s1 e hb hst).1 hr
 
-theorem bound_init (a : Bool) (mx mn sd ns : Nat) (pl : List (Option Nat × Option Nat)) : Bound (init a mx mn sd ns pl) := by
+theorem bound_init (a : Bool) (mx mn sd ns : Nat) (pl : List Plan) : Bound (init a mx mn sd ns pl) := by
   intro l hl; simp [init] at hl; subst hl; simp
 
 /-! ## C09: shutdown closes what is parked -/
@@ -353,7 +353,12 @@ theorem commitsOn_drop (k : Conn) : commitsOn (dropConn k) = commitsOn k := by
 
 theorem commitsOn_probe (k : Conn) : commitsOn (probe k).1 = commitsOn k := by
   unfold probe
-  by_cases h3 : k.peerAlive <;> simp [h3, commitsOn, say, List.countP_cons, isCommit]
+  by_cases h3 : k.peerAlive
+  · simp only [h3, Bool.not_true, Bool.false_eq_true, if_false]
+    split
+    · simp [commitsOn, say, List.countP_cons, isCommit]
+    · split <;> simp [commitsOn, say, List.countP_cons, isCommit]
+  · simp [h3]
 
 theorem commitsOn_transact (k : Conn) (i m : Nat) :
     commitsOn (transact k i m).1 = commitsOn k + (if (transact k i m).2 = .ok then 1 else 0) := by
@@ -362,7 +367,9 @@ theorem commitsOn_transact (k : Conn) (i m : Nat) :
   · simp only [h3, Bool.not_true, Bool.false_eq_true, if_false]
     split
     · rw [commitsOn_abort]; simp [commitsOn, say, List.countP_cons, isCommit]
-    · split <;> simp [commitsOn, say, List.countP_cons, isCommit]
+    · split
+      · rw [commitsOn_abort]; simp [commitsOn, say, List.countP_cons, isCommit]
+      · split <;> simp [commitsOn, say, List.countP_cons, isCommit]
   · simp [h3, commitsOn_abort]
 
 theorem sum_map_modify {α : Type} (g : α → Nat) (f : α → α) (l : List α) (c : Nat) (x : α) (h : l[c]? = some x) :
@@ -853,14 +860,14 @@ theorem valid_step (s s' : St) (e : Ev) (hv : Valid s) (hs : step s e = some s')
       · exact hv.mnt c m d hm
 
 
-theorem valid_init (a : Bool) (mx mn sd ns : Nat) (pl : List (Option Nat × Option Nat)) : Valid (init a mx mn sd ns pl) := by
+theorem valid_init (a : Bool) (mx mn sd ns : Nat) (pl : List Plan) : Valid (init a mx mn sd ns pl) := by
   refine ⟨fun l hl p hp => ?_, fun t ht c hc => ?_, fun c hc => ?_, fun c m d hm => ?_⟩
   · simp [init] at hl; subst hl; simp at hp
   · simp [init] at ht; obtain ⟨_, rfl⟩ := ht; simp at hc
   · simp [init] at hc
   · simp [init] at hm
 
-theorem count_init (a : Bool) (mx mn sd ns : Nat) (pl : List (Option Nat × Option Nat)) : Count (init a mx mn sd ns pl) := by
+theorem count_init (a : Bool) (mx mn sd ns : Nat) (pl : List Plan) : Count (init a mx mn sd ns pl) := by
   simp [Count, totalCommits, totalOk, init, okCount]
 
 theorem valid_count_run (es : List Ev) (s s' : St) (hv : Valid s) (hc : Count s) (hr : run s es = some s') :
@@ -875,23 +882,54 @@ theorem valid_count_run (es : List Ev) (s s' : St) (hv : Valid s) (hc : Count s)
 
 /-! ## C08: a parked connection is used again only after it answered a probe -/
 
+theorem probe_dead (k : Conn) (hd : k.peerAlive = false) : probe k = (k, false) := by
+  simp [probe, hd]
+
 theorem dead_connection_not_reused (s : St) (i c : Nat) (rest : List (Nat × Bool)) (hc : c < s.conns.length)
     (hd : (getConn s c).peerAlive = false) :
     (usePopped s i c rest).senders = s.senders ∧ (getConn (usePopped s i c rest) c).closed = true ∧
       (usePopped s i c rest).idle = some rest := by
   have hg : getConn { s with idle := some rest } c = getConn s c := rfl
   unfold usePopped
-  simp only [hg, probe, hd, Bool.false_eq_true, if_false]
+  simp only [hg, probe_dead _ hd, Bool.false_eq_true, if_false]
   refine ⟨rfl, ?_, rfl⟩
   rw [getConn_updConn _ _ _ _ (by simpa using hc)]
   simp [(abortConn_closed _).1]
 
+/-- a probe that reports success has put a NOOP in front of the peer (and nothing else) -/
+theorem probe_ok_hist (k : Conn) (h : (probe k).2 = true) : (probe k).1.hist = .noop :: k.hist := by
+  unfold probe at h ⊢
+  by_cases h3 : k.peerAlive
+  · simp only [h3, Bool.not_true, Bool.false_eq_true, if_false] at h ⊢
+    split at h
+    · simp at h
+    · split at h
+      · simp at h
+      · rename_i h1 h2
+        simp only [h1, h2, Bool.false_eq_true, if_false]
+        rfl
+  · simp [h3] at h
+
 theorem live_connection_probed_first (s : St) (i c : Nat) (rest : List (Nat × Bool))
-    (ha : (getConn s c).peerAlive = true) :
-    usePopped s i c rest = sendOn (updConn { s with idle := some rest } c fun _ => say (getConn s c) .noop) i c := by
+    (ha : (probe (getConn s c)).2 = true) :
+    usePopped s i c rest = sendOn (updConn { s with idle := some rest } c fun _ => (probe (getConn s c)).1) i c ∧
+      (probe (getConn s c)).1.hist = .noop :: (getConn s c).hist := by
+  have hg : getConn { s with idle := some rest } c = getConn s c := rfl
+  refine ⟨?_, probe_ok_hist _ ha⟩
+  unfold usePopped
+  simp only [hg, ha, if_true]
+
+/-- a probe that fails (peer gone, `421`, or no answer within the timeout) ends in the connection being closed and
+    the sender back at the top of the check-out loop -/
+theorem failed_probe_closes (s : St) (i c : Nat) (rest : List (Nat × Bool)) (hc : c < s.conns.length)
+    (hf : (probe (getConn s c)).2 = false) :
+    (usePopped s i c rest).senders = s.senders ∧ (getConn (usePopped s i c rest) c).closed = true := by
   have hg : getConn { s with idle := some rest } c = getConn s c := rfl
   unfold usePopped
-  simp only [hg, probe, ha, if_true]
+  simp only [hg, hf, Bool.false_eq_true, if_false]
+  refine ⟨rfl, ?_⟩
+  rw [getConn_updConn _ _ _ _ (by simpa using hc)]
+  simp [(abortConn_closed _).1]
 
 /-! ## C07: a connection is in one place at a time -/
 
@@ -1281,7 +1319,7 @@ theorem excl_step (s s' : St) (e : Ev) (hv : Valid s) (he : Excl s) (hs : step s
     omega
 
 
-theorem excl_init (a : Bool) (mx mn sd ns : Nat) (pl : List (Option Nat × Option Nat)) : Excl (init a mx mn sd ns pl) := by
+theorem excl_init (a : Bool) (mx mn sd ns : Nat) (pl : List Plan) : Excl (init a mx mn sd ns pl) := by
   intro d
   have h2 : holdOcc (init a mx mn sd ns pl) d = 0 := by
     unfold holdOcc
